@@ -27,6 +27,9 @@ Definition ast_of_spans_select_stmt : Prop :=
     (* precedences and %avoid_insert: the name *)
     Forall (fun x => sel src (snd (snd x)) (fst x)) (a_precs A) /\
     (forall m, a_avoid_insert A = Some m -> Forall (fun x => sel src (snd x) (fst x)) m) /\
+    (* %implicit_tokens (Eco dialect) and %expect-unused: the name *)
+    (forall m, a_implicit_tokens A = Some m -> Forall (fun x => sel src (snd x) (fst x)) m) /\
+    Forall (sym_sel src) (a_expect_unused A) /\
     (* %epp: the key's span covers the occurrence (quotes included), the value's span
        the quoted string whose body is the value with its quotes escaped *)
     Forall (fun x => (exists q, sel src (fst (snd x)) (print_tok q (fst x))) /\
